@@ -249,7 +249,9 @@ def theorem_names(module):
         if m and ns and ns[-1] == m.group(1):
             ns.pop()
             continue
-        m = re.match(r"\s*(?:@\[[^\]]*\]\s*)?(?:private\s+|protected\s+)?theorem\s+(\S+)", line)
+        if re.match(r"\s*(?:@\[[^\]]*\]\s*)?private\s+theorem\b", line):
+            continue   # private helpers are covered through the public theorems that use them
+        m = re.match(r"\s*(?:@\[[^\]]*\]\s*)?(?:protected\s+)?theorem\s+(\S+)", line)
         if m:
             names.append(".".join(ns + [m.group(1)]))
     return names
@@ -413,7 +415,7 @@ class Check:
             f.write("\n")
         log("[%s] %s tier=%s seed=%d: %d evaluations, %d distinct, %d/%d obligations, %d violation(s), %.1fs" % (
             self.prop, "FAIL" if self.violations else "ok", self.tier, self.seed, self.cov["evaluations"],
-            self.cov["distinct_nontrivial"], self.cov["discharged"], self.cov["obligations"],
+            self.cov["distinct_nontrivial"], self.cov.get("discharged", 0), self.cov.get("obligations", self.cov.get("proof_broken", {}).get("obligations", 0)),
             len(self.violations), time.time() - self.t0))
         return 1 if self.violations else 0
 
